@@ -258,8 +258,9 @@ func (e *endpoint) awaitDelivered() bool {
 func (s *Session) applyChange(c Change) bool {
 	e := s.ep[c.E]
 	if c.Lower && c.NoDrain {
-		// probe: everything the windows allow has arrived, the rest is queued in the relay
-		if !s.wait(func() bool {
+		// no draining: whatever the windows hold back stays queued in the relay (WaitRecv: a
+		// hand-written session waits until exactly that many payload bytes have arrived)
+		if c.WaitRecv > 0 && !s.wait(func() bool {
 			var n int64
 			for _, t := range s.tr[1-e.idx] {
 				n += t.dataRecv
@@ -665,6 +666,15 @@ func (e *endpoint) sendOp(o *Op) bool {
 		} else {
 			e.werr(e.fr.WriteData(id, o.End, buf), "DATA")
 		}
+	case OpWU:
+		e.wmu.Lock()
+		s.mu.Lock()
+		ok := e.known[id] && !e.closedFor(id)
+		s.mu.Unlock()
+		if ok {
+			e.writeWU(id, o.Inc)
+		}
+		e.wmu.Unlock()
 	case OpRst:
 		e.wmu.Lock()
 		defer e.wmu.Unlock()
@@ -690,6 +700,16 @@ func (e *endpoint) sendOp(o *Op) bool {
 		s.mu.Unlock()
 		e.werr(e.fr.WritePing(false, o.Ping), "PING")
 	case OpGoAway:
+		if !s.waitDep(func() bool {
+			for _, id := range o.WaitOpen {
+				if !e.hdrRecv[id] && !e.peer().opened(id) {
+					return false
+				}
+			}
+			return true
+		}) {
+			return false
+		}
 		e.wmu.Lock()
 		defer e.wmu.Unlock()
 		s.mu.Lock()
